@@ -4,6 +4,7 @@ func init() {
 	vHarnesses["H_C01_decode"] = H_C01_decode
 	vHarnesses["H_C01_decode_opts"] = H_C01_decode_opts
 	vHarnesses["H_C01_decode_root"] = H_C01_decode_root
+	vHarnesses["H_C01_decode_twice"] = H_C01_decode_twice
 	vHarnesses["H_C01_decode_nested"] = H_C01_decode_nested
 	vHarnesses["H_C01_decode_rich"] = H_C01_decode_rich
 	vHarnesses["H_C01_decode_values"] = H_C01_decode_values
@@ -173,4 +174,56 @@ func H_C01_decode_cast() {
 	}
 	vSetCastOpts(co)
 	vC01tree(root, o, "")
+}
+
+// a decode depends on the options in force when it runs, not on what an earlier decode saw:
+// the same document (hyphenated, mixed-case names, castable values) decoded two or three
+// times with the options changed in between, in every order of the setters
+func H_C01_decode_twice() {
+	mk := func() vDecOpts {
+		o := vDecOpts{attrPrefix: "-", textKey: "#text"}
+		o.lower = vNondetBool()
+		o.snake = vNondetBool()
+		return o
+	}
+	root := &vXElem{name: "r", attrs: [][2]string{{"Host-Id", "7"}},
+		items: []vXItem{{kind: 0, el: &vXElem{name: "Host-Name", items: []vXItem{{kind: 1, text: vNondetString(1, 1, "x7")}}}},
+			{kind: 0, el: &vXElem{name: "Line-Item", items: []vXItem{{kind: 1, text: "42"}}}}}}
+	for i := 0; i < 2; i++ {
+		o := mk()
+		if preset := vChoose(4); preset > 0 {
+			co := vCastOpts{toInt: preset < 3, toFloat: preset == 3, toBool: preset == 3}
+			o.cast = func(s string, key string) interface{} {
+				v, _ := refCast(s, co)
+				return v
+			}
+			// the cast setters in one of two orders
+			if preset == 2 {
+				CastValuesToFloat(co.toFloat)
+				CastValuesToBool(co.toBool)
+				CastValuesToInt(co.toInt)
+			} else {
+				CastValuesToInt(co.toInt)
+				CastValuesToFloat(co.toFloat)
+				CastValuesToBool(co.toBool)
+			}
+			CastNanInf(false)
+			SetCheckTagToSkipFunc(nil)
+		}
+		vC01again(root, o)
+	}
+	vResetCastOpts()
+}
+
+// vC01again: vC01tree without resetting the cast options first (they were just set by the caller)
+func vC01again(root *vXElem, o vDecOpts) {
+	doc := vRenderElem(root)
+	wantKey, wantVal, outside := refDecodeElem(root, o)
+	vAssume(!outside)
+	vSetDecOpts(o)
+	m, err := NewMapXml([]byte(doc), o.cast != nil)
+	vResetDecOpts()
+	vAssert(err == nil && len(m) == 1, "decode(again): decodes to one root key")
+	vAssert(vDeepEq(m[wantKey], wantVal), "decode(again): the Map is what the conventions prescribe under the options in force now, whatever was decoded before")
+	vCover("decoded")
 }
